@@ -114,7 +114,7 @@ SIXTH = {
  "C16": "R16.5 examines disjunctions, R16.8 (= R02.14), R16.9 (the being-imported mark is removed on every exit).",
  "C17": "R17.14 (the constraint evaluator remembers nothing).",
  "C18": "R18.10 (types spelled by the qualified writer), R18.11 (no state between extractions).",
- "C19": "R19.11 (no table keyed by a code address), R19.12 (frame debug data never dropped), R19.13 (no code generation from arbitrary nodes; D94), R19.14 (the debugger is consulted before every node).",
+ "C19": "R19.11 (no table keyed by a code address), R19.12 (frame debug data never dropped), R19.13 (no code generation from arbitrary nodes; D94), R19.14 (the debugger is consulted before every node), R19.15 (the ancestor frame is not assumed to belong to the session; D112).",
 }
 for _k, _v in SIXTH.items():
     c = CLAIMED[_k]
